@@ -120,7 +120,9 @@ pub fn run(ctx: &Ctx) -> &'static str {
     ctx.assume("projection = connected, receive/send/keepalive stamps, window, in-flight, packet log, highest-acked, congestion/reconnection/RTT/bitrate structs, phase, queue depth, proof stamp, weak/CC flags; only guard-private fields, conn_timeout_ms and the quality cache may move");
     ctx.assume("guard-off decisions are compared with the twin only when the select is >= 50 ms after the previous one (both sets recompute their quality cache) or quality scoring is not in effect; the twin receives the same previous index");
     for (file, body) in ctx.replay_files() {
-        if !ctx.replay_case::<SelCase, _>("histories", &file, &body, check) {
+        if !ctx.replay_case::<SelCase, _>("histories", &file, &body, check)
+            && !ctx.replay_case::<crate::props::decide::Case, _>("glue", &file, &body, |c, o| crate::props::decide::check(c, o, crate::props::decide::Which::C12, ctx))
+        {
             eprintln!("replay {}: unknown part", file.display());
         }
     }
@@ -134,6 +136,14 @@ pub fn run(ctx: &Ctx) -> &'static str {
         ctx.tier.pick(60_000, 800_000),
         || strategy(mo, None),
         |_| check,
+    );
+    let mo2 = ctx.tier.pick(50, 100);
+    ctx.explore(
+        "glue",
+        "the decision engine of C03/C04 (real handle_srt_packet on a real shell, guard switched on and off at run time): after every client datagram routed with the guard off - data, retransmit-flagged, control, critical window open or closed - no link keeps a stall flag, latch, recovery run or silence pull; non-trivial = a must-land (retransmit / critical-window) or control datagram routed with the guard off",
+        ctx.tier.pick(30_000, 300_000),
+        || crate::props::decide::strategy(mo2),
+        |_| |c: &crate::props::decide::Case, o: &mut Obs| crate::props::decide::check(c, o, crate::props::decide::Which::C12, ctx),
     );
     "exploration"
 }
